@@ -1,6 +1,6 @@
 (* Uniform executable entry point of the model for the correspondence check:
    run_case tag args = the observable outputs the implementation must produce for the same case. *)
-From DDSV Require Import base.Machine model.View model.Layout model.DecoderSM model.EncoderSM model.DecodeScript model.Formats gen.GenFormats.
+From DDSV Require Import base.Machine model.View model.Layout model.DecoderSM model.EncoderSM model.DecodeScript model.Formats gen.GenFormats spec.SpecLayout.
 
 Local Open Scope Z_scope.
 
@@ -184,6 +184,23 @@ Definition run_c11 (a : list Z) : list Z :=
   | _ => [-99]
   end.
 
+(* ---- C10 single surfaces: [fmt; W; H; colour; extra pitch; parallel] -> [code; bytes] *)
+Definition run_c10 (a : list Z) : list Z :=
+  match a with
+  | [fmt; W; H; color; extra; par] =>
+    match find_fmt fmt_table (zn fmt) with
+    | None => [-97]
+    | Some row =>
+      match f_enc row with
+      | None => [6; 0]
+      | Some en =>
+          if negb (((zn W) mod e_mul_x en =? 0) && ((zn H) mod e_mul_y en =? 0))%N then [4; 0]
+          else [0; nz (SpecLayout.spec_len (f_pi row) (zn W) (zn H))]
+      end
+    end
+  | _ => [-99]
+  end.
+
 Definition run_case (tag : Z) (args : list Z) : list Z :=
   match tag with
   | 20 => run_c20 args
@@ -191,6 +208,7 @@ Definition run_case (tag : Z) (args : list Z) : list Z :=
   | 8 => run_c08 args
   | 6 => run_c06 args
   | 11 => run_c11 args
+  | 10 => run_c10 args
   | _ => [-98]
   end.
 
